@@ -195,7 +195,7 @@ def set_at(v, path, new):
 
 
 EDIT_KINDS = ["replace_atom", "replace_sub", "list_insert", "list_delete", "list_move", "list_dup",
-              "dict_add", "dict_del", "dict_rekey", "set_add", "set_del", "type_change", "tuple_item", "retype_equal"]
+              "dict_add", "dict_del", "dict_rekey", "set_add", "set_del", "type_change", "tuple_item", "retype_equal", "wrap"]
 
 
 def edit(rng, v, alias=False, strings=None, tuples_inplace=True, kinds=None):
@@ -212,6 +212,17 @@ def edit(rng, v, alias=False, strings=None, tuples_inplace=True, kinds=None):
         new = gen_atom(rng, alias, strings)
     elif kind == "replace_sub":
         new = gen_value(rng, 2, 3, alias, strings)
+    elif kind == "wrap":
+        # the sub-value becomes an item of a new container of ITS OWN type: for tuples of scalars the
+        # wrapped object is (by identity) the object t1 holds one level higher
+        if isinstance(sub, tuple):
+            new = (sub, gen_atom(rng, alias, strings)) if rng.random() < 0.5 else (gen_atom(rng, alias, strings), sub)
+        elif isinstance(sub, list):
+            new = [sub, gen_atom(rng, alias, strings)] if rng.random() < 0.5 else [gen_atom(rng, alias, strings), sub]
+        elif isinstance(sub, dict):
+            new = {"w": sub}
+        else:
+            return v, None
     elif kind == "retype_equal":
         # same items, another container type that Python's == may not tell apart (set/frozenset) or may (list/tuple)
         if isinstance(sub, frozenset):
